@@ -4,6 +4,9 @@
 // sequences built from a gap-pattern alphabet x an interleaving of the groups.
 // Oracle: declarative reference ("the points received so far with T-period <= t < T")
 // plus the reference emission schedule written from pipeline/window.go.
+//
+// This file is unit Window (windows triggered by points). Unit Barrier (barrier_test.go) drives the
+// same time window below barrier().idle(): windows flushed by barriers.
 package c03
 
 import (
